@@ -245,7 +245,8 @@ class Program:
                     tree = ast.parse(src, filename=path)
                 except SyntaxError as e:
                     raise AnalysisError(f"syntax error in {rel}: {e}")
-                _canonicalise(tree)
+                from .normalize import normalise
+                normalise(tree)
                 is_test = "tests" in parts
                 self.modules[name] = Module(name, path, rel, tree, src, is_test, is_pkg)
         self.digest = h.hexdigest()
